@@ -156,6 +156,7 @@ class ShowErrorContract:
 
 
 CONTRACT = ShowErrorContract()
+_SAME_VISITOR = {"AsyncFunctionDef": "FunctionDef", "AsyncFor": "For", "AsyncWith": "With"}
 
 
 def install_contract() -> None:
@@ -175,6 +176,7 @@ def install_contract() -> None:
             if res is not None:
                 CONTRACT.returned += 1
                 ntype = type(node).__name__ if node is not None else "None"
+                ntype = _SAME_VISITOR.get(ntype, ntype)
                 probs = failure_problems(res, CONTRACT.lines_of(self))
                 if probs:
                     code = res.get("code")
@@ -211,6 +213,33 @@ def _frame_key(frames):
     return "?:?", "?"
 
 
+_VISIT_RE = re.compile(r"^visit_([A-Za-z]+)$")
+_COMPOSITE = {"subscript": "Subscript", "attribute": "Attribute", "name": "Name", "walrus": "NamedExpr"}
+_COMPOSITE_RE = re.compile(r"composite_from_(subscript|attribute|name|walrus)")
+_AST_OBJ_RE = re.compile(r"<(?:_?ast\.)(\w+) object")
+
+
+def visited_node(frames, message: str, fallback: str) -> str:
+    """AST node type being visited when it crashed = the deepest visitor method in the traceback (visit_X of the main
+    visitor or of the annotation visitor, composite_from_x); for generic_visit the node named in the message; the
+    node the catch-all reported on only as a fallback (it is the nearest *dispatched* ancestor, which depends on context)."""
+    for file, _lineno, func in reversed(frames):
+        if _PKG not in file:
+            continue
+        func = func.strip().split(".")[-1]
+        if func == "generic_visit":
+            m = _AST_OBJ_RE.search(message)
+            if m:
+                return m.group(1)
+        m = _VISIT_RE.match(func)
+        if m:
+            return _SAME_VISITOR.get(m.group(1), m.group(1))
+        m = _COMPOSITE_RE.search(func)
+        if m:
+            return _COMPOSITE[m.group(1)]
+    return fallback
+
+
 def frames_of_text(text: str) -> list:
     return [(m.group(1), int(m.group(2)), m.group(3)) for m in _FRAME_RE.finditer(text)]
 
@@ -238,13 +267,15 @@ def internal_error_key(failure, node_type: str):
         first = desc.splitlines()[0] if desc else ""
         return f"internal_error|direct:{norm_exc_msg(first.split(':')[0])}|{node_type}", "?"
     exc = m.group(1).split(".")[-1]
-    where, fileline = _frame_key(frames_of_text(desc))
-    return f"internal_error|{exc}|{where}|{node_type}", fileline
+    frames = frames_of_text(desc)
+    where, fileline = _frame_key(frames)
+    return f"internal_error|{exc}|{where}|{visited_node(frames, desc[m.start():], node_type)}", fileline
 
 
 def escaped_key(exc: BaseException):
-    where, fileline = _frame_key(frames_of_exc(exc))
-    return f"escaped|{type(exc).__name__}|{where}", fileline
+    frames = frames_of_exc(exc)
+    where, fileline = _frame_key(frames)
+    return f"escaped|{type(exc).__name__}|{where}|{visited_node(frames, str(exc), '?')}", fileline
 
 
 def last_line(desc: str) -> str:
@@ -268,19 +299,40 @@ def malformed_key(clause: str, code_name: str, source: str) -> str:
 # checking one program under one configuration
 
 
+class CheckTimeout(BaseException):
+    """raised by the per-check alarm (a BaseException so that pyanalyze's catch-alls do not swallow it)"""
+
+
+CHECK_LIMIT_S = 300  # a check of a <=100-line module normally takes 0.01-0.5 s
+
+
+def _on_alarm(signum, frame):
+    raise CheckTimeout()
+
+
 def observe(source: str, config: str, fresh: bool = False):
-    """-> ('unimportable'|'ok', [(key, what)], stats) ; stats = dict(diags=..., codes=Counter)"""
+    """-> ('unimportable'|'ok', [(key, what, lineno)], stats) ; stats = dict(diags=..., codes=Counter)"""
+    import signal
+
     CONTRACT.reset()
     kw = dict(CONFIGS[config])
+    old = signal.signal(signal.SIGALRM, _on_alarm)
+    signal.alarm(CHECK_LIMIT_S)
     try:
         res = harness.run(source, fresh_checker=fresh, **kw)
     except (KeyboardInterrupt, SystemExit):
         raise
     except BaseException as e:  # noqa: BLE001 - raised by ast.parse / make_module: the module is out of scope
         return "unimportable", [], {"why": type(e).__name__}
+    finally:
+        signal.alarm(0)
+        signal.signal(signal.SIGALRM, old)
     found = []
     lines = py_lines(source)
-    if res.exception is not None:
+    if isinstance(res.exception, CheckTimeout):
+        where, fileline = _frame_key(frames_of_exc(res.exception))
+        found.append(("hang|check-exceeded-limit", f"[{config}] the check did not finish within {CHECK_LIMIT_S} s (interrupted in {where}, {fileline})", None))
+    elif res.exception is not None:
         key, fileline = escaped_key(res.exception)
         found.append((key, f"[{config}] exception escaped check(): {res.exception!r} at {fileline}", None))
     raw = getattr(res, "raw", [])
@@ -335,6 +387,12 @@ def _candidates(source: str, target_line):
     lines = source.split("\n")
     per_line = collections.Counter()
     stmts = []
+    in_function = set()  # statements that are (transitively) inside a function body: never executed by the import
+    for fn in ast.walk(tree):
+        if isinstance(fn, (ast.FunctionDef, ast.AsyncFunctionDef)):
+            for st in fn.body:
+                for sub in ast.walk(st):
+                    in_function.add(id(sub))
     for node in ast.walk(tree):
         if isinstance(node, ast.stmt):
             lo = min([node.lineno] + [d.lineno for d in getattr(node, "decorator_list", [])])
@@ -349,7 +407,8 @@ def _candidates(source: str, target_line):
         if not inside:
             dele.append((-size, lo, lines[: lo - 1] + lines[hi:]))
             repl.append((-size, lo, lines[: lo - 1] + [" " * col + "pass"] + lines[hi:]))
-        else:
+        elif id(node) in in_function and not isinstance(node, (ast.FunctionDef, ast.AsyncFunctionDef)):
+            # hoisting must never move code to a place where importing the module would execute it
             blocks = []
             for field in ("body", "orelse", "finalbody"):
                 blk = getattr(node, field, None)
@@ -680,8 +739,10 @@ def run_value_op(op: str, vals, tvmap, ctx_obj):
         return a.can_assign(vals[1], ctx_obj)
     if op == "is_assignable":
         return a.is_assignable(vals[1], ctx_obj)
-    if op == "can_overlap":
-        return a.can_overlap(vals[1], ctx_obj, None)
+    if op.startswith("can_overlap"):
+        from pyanalyze.value import OverlapMode
+
+        return a.can_overlap(vals[1], ctx_obj, OverlapMode[op.split("[")[1].rstrip("]")])
     if op == "unite_values":
         return unite_values(*vals)
     if op == "or":
@@ -721,7 +782,7 @@ def value_phase(ctx) -> None:
         ctx.count("evaluations")
     for i, (s1, v1) in enumerate(zip(specs, vals)):
         for j, (s2, v2) in enumerate(zip(specs, vals)):
-            for op in ("can_assign", "is_assignable", "can_overlap", "unite_values", "eq"):
+            for op in ("can_assign", "is_assignable", "can_overlap[IS]", "can_overlap[MATCH]", "can_overlap[EQ]", "unite_values", "eq"):
                 value_call(ctx, op, lambda: run_value_op(op, [v1, v2], None, cc), [s1, s2])
             ctx.count("evaluations")
     ntri = ctx.pick(4000, 40000)
@@ -743,7 +804,7 @@ def value_phase(ctx) -> None:
         for op in ("str", "hash", "simplify"):
             value_call(ctx, op, lambda: run_value_op(op, vv[:1], None, cc), ss[:1])
         value_call(ctx, "substitute_typevars", lambda: run_value_op("substitute_typevars", vv[:1], m, cc), ss[:1], ms)
-        for op in ("can_assign", "is_assignable", "can_overlap", "unite_values"):
+        for op in ("can_assign", "is_assignable", "can_overlap[IS]", "can_overlap[MATCH]", "can_overlap[EQ]", "unite_values"):
             value_call(ctx, op, lambda: run_value_op(op, vv, None, cc), ss)
         ctx.count("evaluations")
 
@@ -846,7 +907,7 @@ def annotation_call(ctx, op: str, fn, text: str):
         raise
     except BaseException as e:  # noqa: BLE001
         where, fileline = _frame_key(frames_of_exc(e))
-        key = f"value-api|{op}|{type(e).__name__}|{where}"
+        key = f"value-api|{op.split('[')[0]}|{type(e).__name__}|{where}"
         ctx.violation(key, f"{op}({text!r}) raised {type(e).__name__}: {str(e)[:200]} at {fileline}",
                       {"kind": "annotation", "op": op, "text": text, "expect": key})
         return None
